@@ -35,6 +35,9 @@ CleanerRefuseSeq == <<
     << O("fstat", "owner_lock", "none"), O("close", "state", "none"), O("close", "owner_lock", "none"),
        O("close", "context", "none") >> >>
 
+\* a lock step that fails on an unlinked file: same calls in the pinned code (only the error differs)
+CleanerRefuseGoneSeq == CleanerRefuseSeq
+
 NodeMapVal == [Alive |-> "Alive", Dead |-> "Dead", CleaningUp |-> "Dead", DoesNotExist |-> "DoesNotExist",
                Starting |-> "DoesNotExist", Err |-> "Undefined"]
 
